@@ -17,7 +17,7 @@ CHECKS = {
          "Generated shapes and operation sequences (construction / indexed / un-indexed phases, mirroring every assert in sparse_matrix.rs) are applied to DenseBinaryMatrix, SparseBinaryMatrix and a plain Vec<Vec<Tri>> model; every query answer of both implementations is compared with the model on defined cells, plus a full scan at the end; also run with debug assertions. Found and drove the repair of two out-of-bounds panics of the dense matrix.",
          "Sampled sequences; undefined cells (left of start_col after a partial addition where the source row is non-zero) are excluded as the interface declares; trailing dense hint >= 1.",
          "DESIGN.md 5/C16"),
- "C17": ("controlled-scheduler exploration: exhaustive enumeration of critical-section interleavings for small shapes + generated schedules and eviction histories, invariants after every step",
+ "C17": ("controlled-scheduler exploration (threads parked in front of both critical sections and, for part of the shapes, while they hold a plan): exhaustive enumeration of interleavings for small shapes + generated schedules and eviction histories, invariants after every step",
          "The harness owns the schedule of the plan cache's two critical sections through the yield hook: all interleavings are enumerated for 2x2, 3x1 and selected 3x2 request shapes (also with the cache at capacity), and generated request histories/schedules (incl. 60-90 distinct sizes to force eviction and re-requests of evicted sizes) are explored; after every critical section the capacity bound, the queue/key bijection and key == plan size are checked, and every encoder is compared (== and packet-wise) with encoders built without the cache. An uncontrolled multi-thread stress run adds the same invariants at the end.",
          "Sound reduction to critical-section granularity assumes all shared state is behind the cache Mutex (true in this tree) and std::sync::Mutex is correct; exhaustive only for the listed small shapes.",
          "DESIGN.md 5/C17"),
@@ -41,7 +41,7 @@ CHECKS = {
          "Generated parameter sets built adjacent to every documented limit (and with ceil(F/T) beyond 2^32) are judged by a u128 reference predicate; accept/refuse must agree both ways and accepted values must be echoed. Found and drove the repair of an acceptance beyond the limit.",
          "Sampled search (2e6 quick / 2e8 thorough); domain restricted to positive T, Z, Al as the property states.",
          "DESIGN.md 5/C19"),
- "C01": ("proptest over objects (small, many-block, large) and delivery histories through decode() and add_new_packet()/get_result(); oracle = original bytes + reference layout",
+ "C01": ("proptest over objects (small, many-block, large) and delivery histories through decode(), add_new_packet()/get_result() and both alternating; oracle = original bytes + reference layout",
          "Generated objects (all data classes, F mod T, Z, N, Al) and generated delivery histories (subsets, orders, multiplicities, repair ESIs over the whole 24-bit range); after every decode call the answer must be None or exactly the object, Some once all source packets arrived; the same history through per-block decoders. Thorough adds K at the dense/sparse switch, K~1000 and K>=10000.",
          "Sampled; objects bounded (<= a few MB); packets are always encoder output (no corruption claimed).",
          "DESIGN.md 5/C01"),
